@@ -54,10 +54,12 @@ def main():
             subprocess.run(['git', '-C', REPO, 'apply', os.path.join(d, 'patch.diff')], check=True)
             pids = [meta['property']] + ([p for p in cl if p != meta['property']] if do_all else [])
             for pid in pids:
-                if pid not in cl:
-                    res.append(dict(property=pid, exit=None, violations=[], detail=['property not claimed: no check registered'], summary=''))
+                if pid not in cl and not os.path.exists(os.path.join(VERIF, 'tools', 'props', pid + '.py')):
+                    res.append(dict(property=pid, exit=None, violations=[], detail=['no check for this property'], summary=''))
                     continue
-                res.append(run_check(pid, evdir, tier))
+                r = run_check(pid, evdir, tier)
+                r['claimed_in_manifest'] = pid in cl     # an unclaimed property's check is run all the same
+                res.append(r)
         finally:
             subprocess.run(['git', '-C', REPO, 'checkout', '--', '.'], check=True)
             # the generated rule table follows lexer.l: bring it back to the unchanged source
